@@ -63,6 +63,124 @@ def is_C(v, k):
     return None
 
 
+def digit_norm(v, k, memo=None):
+    """the other common spelling of the balanced digit, ((t & (2^k-1)) ^ 2^(k-1)) - 2^(k-1), rewritten bottom-up into the
+    shift pair ashr(shl(t, 64-k), 64-k) (equal for every 64-bit t: the xor flips bit k-1 of the low k bits u, which adds
+    2^(k-1) when u < 2^(k-1) and subtracts it otherwise)"""
+    memo = {} if memo is None else memo
+    if not isinstance(v, Sym):
+        return v
+    r = memo.get(v)
+    if r is not None:
+        return r
+    e = v.e
+    ne = tuple(digit_norm(x, k, memo) if isinstance(x, Sym) else x for x in e)
+    r = sym(*ne) if any(a is not b for a, b in zip(ne, e)) else v
+    mask, h = (1 << k) - 1, 1 << (k - 1)
+
+    def xh(x):
+        if isinstance(x, Sym) and x.e[0] == 'xor' and x.e[1] == 64:
+            for a, b in ((x.e[2], x.e[3]), (x.e[3], x.e[2])):
+                if is_int(b) and b % M64 == h and isinstance(a, Sym) and a.e[0] == 'and' and a.e[1] == 64:
+                    for t, m in ((a.e[2], a.e[3]), (a.e[3], a.e[2])):
+                        if is_int(m) and m % M64 == mask:
+                            return t
+        return None
+
+    D = lambda t: sym('ashr', 64, sym('shl', 64, t, 64 - k), 64 - k)
+    e = r.e
+    if e[0] == 'sub' and e[1] == 64:
+        t = xh(e[2])
+        if t is not None and is_int(e[3]) and e[3] % M64 == h:
+            r = D(t)
+        else:
+            t = xh(e[3])
+            if t is not None and is_int(e[2]) and e[2] % M64 == h:
+                r = sym('sub', 64, 0, D(t))
+    elif e[0] == 'add' and e[1] == 64:
+        for a, b in ((e[2], e[3]), (e[3], e[2])):
+            t = xh(a)
+            if t is not None and is_int(b) and b % M64 == (M64 - h):
+                r = D(t)
+                break
+    elif e[0] == 'ashr' and e[1] == 64 and e[3] == k:
+        # the carry ashr(t - D(t), k) with the difference left in another arrangement (-D(t) + t, t + (h - X), ...): the
+        # signed multiset of summands minus the digit term must be exactly the summands of t
+        def flat(x, sg, terms, cst):
+            if is_int(x):
+                cst[0] = (cst[0] + sg * x) % M64
+            elif isinstance(x, Sym) and x.e[0] in ('add', 'sub') and x.e[1] == 64:
+                flat(x.e[2], sg, terms, cst)
+                flat(x.e[3], sg if x.e[0] == 'add' else -sg, terms, cst)
+            else:
+                terms[x] = terms.get(x, 0) + sg
+                if not terms[x]:
+                    del terms[x]
+        terms, cst = {}, [0]
+        flat(e[2], 1, terms, cst)
+        if is_C(r, k) is None:
+            for d, c in list(terms.items()):
+                t = is_D(d, k) if c == -1 else None
+                if t is None:
+                    continue
+                rest = dict(terms)
+                del rest[d]
+                tt, tc = {}, [0]
+                flat(t, 1, tt, tc)
+                if rest == tt and cst[0] == tc[0]:
+                    r = sym('ashr', 64, sym('sub', 64, t, d), k)
+                    break
+    memo[v] = r
+    return r
+
+
+def concrete(v, env):
+    """value of a 64-bit integer expression at a concrete point (witness search only); None outside the few operators"""
+    if is_int(v):
+        return v % M64
+    if not isinstance(v, Sym):
+        return None
+    e = v.e
+    if e[0] == 'in':
+        return env.get((e[1], e[2]))
+    if e[0] in ('add', 'sub', 'mul', 'and', 'or', 'xor', 'shl', 'lshr', 'ashr') and e[1] == 64:
+        a, b = concrete(e[2], env), concrete(e[3], env)
+        if a is None or b is None:
+            return None
+        if e[0] in ('shl', 'lshr', 'ashr') and b >= 64:
+            return None
+        sa = a - M64 if a >> 63 else a
+        return {'add': a + b, 'sub': a - b, 'mul': a * b, 'and': a & b, 'or': a | b, 'xor': a ^ b, 'shl': a << b,
+                'lshr': a >> b, 'ashr': sa >> b}[e[0]] % M64
+    return None
+
+
+def identity_witness(outv, coutv, k, has_cin, off):
+    """a concrete (in, carry_in) at which the stored values break in + cin = digit + 2^k * carry with a balanced digit"""
+    import random
+    rnd = random.Random(k)
+    h = 1 << (k - 1)
+    pts = [0, 1, M64 - 1, h, h - 1, h + 1, M64 - h, M64 - h - 1, M64 - h + 1, (1 << 63) - 1, 1 << 63, (1 << 63) + 1, (1 << k) - 1,
+           1 << k, M64 - (1 << k)] + [rnd.getrandbits(64) for _ in range(40)]
+    sg = lambda z: z - M64 if z >> 63 else z
+    for x in pts:
+        for c in (pts[:12] if has_cin else [0]):
+            env = {('in', off): x, ('carry_in', off): c}
+            o = concrete(outv, env) if outv is not None else None
+            co = concrete(coutv, env) if coutv is not None else None
+            if (outv is not None and o is None) or (coutv is not None and co is None):
+                return None
+            if o is not None and not (-h <= sg(o) < h and (o - x - c) % (1 << k) == 0):
+                return {'in': sg(x), 'carry_in': sg(c), 'out': sg(o)}
+            if co is not None:
+                d = (x + c - (co << k)) % M64
+                if o is not None and d != o:
+                    return {'in': sg(x), 'carry_in': sg(c), 'out': sg(o), 'carry_out': sg(co)}
+                if o is None and not (-h <= sg(d) < h):
+                    return {'in': sg(x), 'carry_in': sg(c), 'carry_out': sg(co)}
+    return None
+
+
 class Rewriter:
     """ring normal form over Z/2^64 with the carry axiom 2^k*C(t) = t - D(t)"""
 
@@ -70,6 +188,7 @@ class Rewriter:
         self.k = k
         self.cn = Canon()
         self.unrecognised = []
+        self.dsyms = {}     # atom id of D(t) -> t
 
     def poly(self, v):
         cn, k = self.cn, self.k
@@ -87,9 +206,18 @@ class Rewriter:
             return {(cn.atom_id(('C', cn.struct(t))),): 1}
         t = is_D(v, k)
         if t is not None:
-            return {(cn.atom_id(('D', cn.struct(t))),): 1}
+            a = cn.atom_id(('D', cn.struct(t)))
+            self.dsyms[a] = t
+            return {(a,): 1}
         if e[0] == 'in':
             return {(cn.atom_id(e),): 1}
+        if e[0] == 'ashr' and e[1] == 64 and e[3] == k:
+            # ashr(E, k) with E = t - D(t) in whatever arrangement the compiler left it: the carry of t
+            pe = self.poly(e[2])
+            for (mono, c) in list(pe.items()):
+                t = self.dsyms.get(mono[0]) if len(mono) == 1 and c == M64 - 1 else None
+                if t is not None and self._n(cn._padd(cn._padd(pe, {mono: 1}), self.poly(t), -1)) == {}:
+                    return {(cn.atom_id(('C', cn.struct(t))),): 1}
         if e[0] in ('ashr', 'shl', 'lshr'):
             self.unrecognised.append(fmt(v)[:120])
         return {(cn.atom_id(cn.struct(v)),): 1}
@@ -108,6 +236,12 @@ class Rewriter:
         t = is_C(v, k)
         if t is not None:
             return self._n(cn._padd(self.poly(t), {(cn.atom_id(('D', cn.struct(t))),): 1}, -1))
+        if e and e[0] == 'ashr' and e[1] == 64 and e[3] == k:
+            pe = self.poly(e[2])
+            for (mono, c) in list(pe.items()):
+                t = self.dsyms.get(mono[0]) if len(mono) == 1 and c == M64 - 1 else None
+                if t is not None and self._n(cn._padd(cn._padd(pe, {mono: 1}), self.poly(t), -1)) == {}:
+                    return pe          # 2^k * ashr(t - D(t), k) = t - D(t): the low k bits of t - D(t) are zero
         return self._n({m: c << k for m, c in self.poly(v).items()})
 
 
@@ -128,6 +262,7 @@ def identity_check(L, R, tier):
         has_cin = '_cin1' in name
         for cpu in ('accel',):
             bad = None
+            unproved = None
             for k in ks:
                 sp = dict(spec)
                 sp['args'] = list(spec['args'])
@@ -149,6 +284,10 @@ def identity_check(L, R, tier):
                     if (has_out and outv is None) or (has_cout and coutv is None):
                         bad = bad or (k, 'element %d not written' % i)
                         continue
+                    nm = {}
+                    outv = digit_norm(outv, k, nm) if outv is not None else None
+                    coutv = digit_norm(coutv, k, nm) if coutv is not None else None
+                    nbad = bad
                     try:
                         x = rw.poly(sym('in', 'in', off, 8))
                         cin = rw.poly(sym('in', 'carry_in', off, 8)) if has_cin else {}
@@ -176,11 +315,22 @@ def identity_check(L, R, tier):
                             forms.setdefault(('cout', has_cin, k, i), {})[name] = shared.struct(coutv)
                     except ValueError:
                         bad = bad or (k, 'uninterpreted value stored')
-                if rw.unrecognised and not bad:
+                    if bad is not nbad and bad is not None and bad[0] == k and not str(bad[1]).startswith('call '):
+                        # the rewriting proof did not go through: that is a verdict only with a concrete input that
+                        # breaks the identity; otherwise the spelling is outside what the proof recognises (no verdict)
+                        w = identity_witness(outv, coutv, k, has_cin, off)
+                        if w is None:
+                            unproved = unproved or (k, bad[1])
+                            bad = nbad
+                        else:
+                            bad = (k, '%s; e.g. %s' % (bad[1], w))
+                if rw.unrecognised and not bad and not unproved:
                     R.broke('digit/carry helper idiom not recognised in %s (k=%d): %s' % (name, k, rw.unrecognised[0]))
             subj = name
             if bad:
                 R.ob('digit-carry-identity', subj, 'refuted', detail='k=%d: %s' % bad, key='%s:identity' % name, witness={'k': bad[0]})
+            elif unproved:
+                R.ob('digit-carry-identity', subj, 'unknown', detail='k=%d: no proof and no counterexample: %s' % unproved)
             else:
                 R.ob('digit-carry-identity', subj, 'holds', detail='%d values of k' % len(ks))
     # shapes agree
@@ -347,7 +497,7 @@ def digit_chain(L, R, tier):
                                 continue
                             ncmp += 1
                             try:
-                                got = ch.poly(e[1], memo)
+                                got = ch.poly(digit_norm(e[1], ch.k), memo)
                             except ValueError:
                                 R.broke('%s %s: limb %d coefficient %d holds a value outside the digit/carry algebra: %s' % (
                                     name, sh, i, j, (ch.unrecognised or [fmt(e[1])[:100]])[0]))
@@ -445,7 +595,7 @@ def range_check(L, R, tier):
                     if e is None:
                         continue
                     memo = {}
-                    rg = idiom_range(e[1], k, lambda a, B=B: (-(1 << 62), 1 << 62) if a[1] == 'in' else (-B, B), finds, memo)
+                    rg = idiom_range(digit_norm(e[1], k), k, lambda a, B=B: (-(1 << 62), 1 << 62) if a[1] == 'in' else (-B, B), finds, memo)
                     n += 1
                     if rg is None:
                         R.broke('%s k=%d: %s outside the digit/carry algebra' % (name, k, buf))
